@@ -425,7 +425,7 @@ func main() {
 		r.Write(*out)
 		return
 	}
-	n := 375
+	n := 800
 	if *tier == "thorough" {
 		n = 4000
 	}
